@@ -402,6 +402,29 @@ def run_shard(ctx):
         if o.ok:
             ctx.viol("accepted-but-must-reject:saveto-without-entities-sheet:audit-row", "save_to on the audit row without an entities sheet was converted "
                      f"(entities:saveto in output: {'entities:saveto' in o.xform})", common.witness(f6))
+    # ... and with an entities sheet the audit row's save_to is held to the same naming rules as any question's (and a good name is bound on meta/audit)
+    for nm, good in (("p_audit", True), ("soil.ph", True), ("name", False), ("LaBeL", False), ("__audit", False), ("1st", False), ("a b", False), ("x$", False)):
+        for params in (None, "track-changes=true"):
+            n += 1
+            if not ctx.mine(n):
+                continue
+            cells = {"save_to": nm}
+            if params:
+                cells["parameters"] = params
+            f7 = gen.simple_form([("text", "q1", {"label": "Q", "save_to": "p0"}), ("audit", "audit", cells)])
+            f7.entities = {"list_name": "trees", "label": "concat('L', 'x')"}
+            o = drive.convert_form(f7)
+            ctx.ctr("rejections_judged")
+            ctx.case(sig=f"saveto-on-audit|{nm}|{bool(params)}")
+            if good:
+                if not o.ok:
+                    ctx.viol("rejected-but-valid:saveto-on-audit-row", f"save_to {nm!r} on the audit row: {o.brief()[:200]}", common.witness(f7))
+                elif f'saveto="{nm}"' not in o.xform:
+                    ctx.viol("saveto:missing:audit-row", f"save_to {nm!r} on the audit row is not on any bind", common.witness(f7))
+            elif o.ok:
+                ctx.viol("accepted-but-must-reject:saveto-name:audit-row", f"save_to {nm!r} on the audit row was converted (entities:saveto in output: {'entities:saveto=' in o.xform})", common.witness(f7))
+            elif not o.exc_is_pyxform:
+                ctx.viol("crash:saveto-on-audit-row", f"{nm!r}: {o.brief()}", common.witness(f7))
     # save_to on the begin row of every kind of section, in every spelling of the type cell: a section holds no value, the form is refused
     for bt, et in (("begin group", "end group"), ("begin_group", "end_group"), ("begin repeat", "end repeat"), ("Begin Group", "End Group"), ("begin  group", "end group"),
                    ("begin loop over lp9", "end loop"), ("begin_loop over lp9", "end_loop"), ("begin loop  over lp9", "end loop")):
